@@ -24,9 +24,19 @@ PROBE_PARAMS = {
     '_pstr': ('pstr', ["lit:''", "lit:'abc'", "lit:'abcd'", "lit:'\\xe9'", 'int']),
     '_ps': ('ps', [['dict', {'x': 'float', 'n': 'int'}], ['dict', {'x': 'float'}], ['dict', {'n': 'int'}], ['dict', {}],
                    ['dict', {'x': 'float', 'zz': 'int'}], 'strab']),
+    '_ps2': ('ps2', [['dict', {'x': 'float', 'n': 'int'}], ['dict', {'x': 'float'}], ['dict', {}]]),
     '_pa': ('pa', [['list', []], ['list', ['int']], ['list', ['int', 'int', 'int', 'int']], ['list', ['float']], 'strab']),
     '_other': ('cust', ['float', 'strab']),
     '_nowrite': ('nowrite', ['float', 'int']),
+}
+
+
+CMD_PROBES = {
+    '_cmd0': ['none', 'float'],
+    '_cmdt': [['list', ['float', 'int']], ['list', ['float']], ['list', ['float', 'int', 'int']], 'none', 'strab'],
+    '_cmds': [['dict', {'x': 'float', 'n': 'int'}], ['dict', {'x': 'float'}], ['dict', {}], ['dict', {'x': 'float', 'zz': 'int'}]],
+    '_cmds2': [['dict', {'x': 'float', 'n': 'int'}], ['dict', {'x': 'float'}], ['dict', {'n': 'int'}], ['dict', {}]],
+    '_cmd1': ['float', 'int', 'str12', 'none'],
 }
 
 
@@ -35,6 +45,12 @@ def cases(tier):
     for wname, (attr, kinds) in PROBE_PARAMS.items():
         for i, k in enumerate(kinds):
             out.append({'fn': 'run_probe', 'id': f'probe/{wname}/{i}', 'params': {'wname': wname, 'attr': attr, 'cand': k}})
+    for cname, kinds in CMD_PROBES.items():
+        for i, k in enumerate(kinds):
+            out.append({'fn': 'run_cmd_probe', 'id': f'cmd-probe/{cname}/{i}', 'params': {'wname': cname, 'cand': k}})
+    out.append({'fn': 'run_constant', 'id': 'constant', 'params': {}})
+    for attr, wname in (('pf', '_pf'), ('cmd0', '_cmd0'), ('target', 'target')):
+        out.append({'fn': 'run_cfg_unexported', 'id': f'cfg-unexported/{attr}', 'params': {'attr': attr, 'wname': wname}})
     for v in ('readable', 'writable', 'drivable', 'communicator', 'feature', 'plain'):
         out.append({'fn': 'run_classes', 'id': f'classes/{v}', 'params': {'variant': v}})
     for name in ('hidden', '_hidden', 'cust', '_cust', 'pf', 'zz', '_cmd0', '_hiddencmd'):
@@ -145,6 +161,98 @@ def run_probe(env, p):
                 env.fail(K + '/emitted-value-not-importable/' + type(ex).__name__, repr(ex))
                 return
             env.check(covers(back, cval), K + '/emitted-value-differs-from-accepted')
+
+
+def run_cmd_probe(env, p):
+    """the described argument datainfo accepts a payload iff the node executes the command;
+    the result is importable with the described result datainfo"""
+    from frappy.datatypes import get_datatype
+    from frappy.errors import BadValueError
+    srv, log, spec = build_node(env, symbolic=())
+    desc = srv.dispatcher.handle_request(C.Conn(), ('describe', '.', None))[2]
+    acc = desc['modules']['m']['accessibles'][p['wname']]
+    K = f"C06/{p['wname']}"
+    try:
+        cdt = get_datatype(acc['datainfo'], p['wname'])
+    except Exception as e:
+        env.fail(K + '/datainfo-not-rebuildable/' + type(e).__name__, repr(e))
+        return
+    cand = M.make(env, p['cand'], 'v', box={'f': 2000, 'i': 2000})
+    if cdt.argument is None:
+        client_ok = cand.value is None
+    elif cand.value is None:
+        client_ok = False
+    else:
+        try:
+            cdt.argument.validate(cdt.argument.import_value(cand.value))
+            client_ok = True
+        except BadValueError:
+            client_ok = False
+        except Exception as e:
+            env.fail(K + '/client-datatype-raises/' + type(e).__name__, repr(e))
+            return
+    h, per = C.scripted_handler(srv, [('do', 'm:' + p['wname'], cand.value)])
+    reply = per[0][0]
+    node_ok = reply[0] == 'done'
+    if not node_ok:
+        env.check(reply[0] == 'error_do' and reply[2][0] in PAYLOAD_ERRORS, K + '/refused-for-other-reason', reply[2][0])
+    env.check(client_ok == node_ok, K + '/described-argument-and-node-disagree', [client_ok, node_ok])
+    env.note('accept-agree' if node_ok else 'reject-agree')
+    if node_ok and cdt.result is not None:
+        try:
+            cdt.result.validate(cdt.result.import_value(reply[2][0]))
+        except Exception as ex:
+            env.fail(K + '/result-not-importable/' + type(ex).__name__, repr(ex))
+
+
+def run_constant(env, p):
+    """a constant parameter reads as exactly the described constant and refuses changes"""
+    from frappy.datatypes import get_datatype
+    srv, log, spec = build_node(env, symbolic=())
+    desc = srv.dispatcher.handle_request(C.Conn(), ('describe', '.', None))[2]
+    acc = desc['modules']['m']['accessibles']['_pc']
+    K = 'C06/constant'
+    env.check(acc.get('constant') == 2.5 and acc.get('readonly') is True, K + '/description', acc.get('constant'))
+    h, per = C.scripted_handler(srv, [('read', 'm:_pc', None), ('change', 'm:_pc', 1.0)])
+    rd, ch = per[0][0], per[1][0]
+    ok = rd[0] == 'reply' and isinstance(rd[2], list) and len(rd[2]) == 2
+    env.check(ok, K + '/read-of-constant-fails', rd[:2] + (rd[2][:2] if isinstance(rd[2], list) else rd[2],))
+    if ok:
+        cdt = get_datatype(acc['datainfo'])
+        env.check(cdt.import_value(rd[2][0]) == cdt.import_value(acc['constant']), K + '/read-differs-from-described-constant', rd[2][0])
+    env.check(ch[0] == 'error_change' and ch[2][0] == 'ReadOnly', K + '/change-of-constant-not-refused', ch[:2])
+    env.note('accept-agree')
+    env.note('reject-agree')
+
+
+def run_cfg_unexported(env, p):
+    """an accessible switched off in the configuration (export=False) is neither described nor reachable"""
+    from C04_requests import build_node as bn
+    import C04_requests
+    # same node, but the configuration hides one accessible
+    orig = C.make_node
+
+    def make_node(cfg, **kw):
+        cfg = {k: dict(v) for k, v in cfg.items()}
+        cfg['m'][p['attr']] = {'export': False}
+        return orig(cfg, **kw)
+    C.make_node = make_node
+    try:
+        srv, log, spec = bn(env, symbolic=())
+    finally:
+        C.make_node = orig
+    K = f"C06/cfg-unexported/{p['attr']}"
+    desc = srv.dispatcher.handle_request(C.Conn(), ('describe', '.', None))[2]
+    env.check(p['wname'] not in desc['modules']['m']['accessibles'], K + '/still-described')
+    spec_ = 'm:' + p['wname']
+    is_cmd = p['attr'] == 'cmd0'
+    reqs = [('do', spec_, None)] if is_cmd else [('read', spec_, None), ('change', spec_, 1.0), ('activate', spec_, None)]
+    h, per = C.scripted_handler(srv, reqs)
+    for rq, rep in zip(reqs, per):
+        env.check(rep[-1][0] == 'error_' + rq[0], K + f'/{rq[0]}-not-refused', [r[0] for r in rep])
+    env.check(log == [], K + '/driver-reached', [e[0] for e in log])
+    env.note('accept-agree')
+    env.note('reject-agree')
 
 
 def covers(full, given):
